@@ -62,8 +62,8 @@ DShape(s) == CASE s \in {"bb", "nb", "sb", "hb"} -> "both" [] s \in {"bn", "nn",
 Body(f, shape) ==
   (IF shape \in {"both", "nogroup", "header"} THEN <<Ent(NoG, KKey, IdVal(f)), Ent(NoG, UKey(f), <<49>>)>> ELSE <<>>)
   \o (IF shape \in {"both", "section"} THEN <<Ent(SecS, KKey, IdVal(f)), Ent(SecS, UKey(f), <<49>>)>> ELSE <<>>)
-\* drop-ins that are symbolic links to /dev/null (the usual way to switch a vendor drop-in off: the link has the
-\* vendor file's name, so it masks it, and contributes nothing itself); optional field of the tree
+\* drop-ins that are symbolic links to /dev/null or empty regular files (the usual ways to switch a vendor drop-in off:
+\* the file has the vendor file's name, so it masks it, and contributes nothing itself); optional field of the tree
 DNull(tree, i) == IF "dnull" \in DOMAIN tree THEN tree.dnull[i] ELSE {}
 Content(tree, f) == IF f.r = 0
                     THEN (IF tree.main[f.l] = "regular" THEN Body(f, tree.mshape) ELSE <<>>)   \* empty, /dev/null
